@@ -370,6 +370,30 @@ pub fn receivership_ixs(w: &World, le: usize, receiver: &Keypair, wd: Option<(us
 }
 
 pub async fn receivership(w: &mut World, m: &mut Mon, r: &mut R, lev: &Lev, receiver_user: usize) {
+    // in some rounds the collateral bank is wound down first: reduce-only deposits stop counting for
+    // new borrowing but keep their full value for the maintenance and equity assessments
+    let reduce_only = r.gen_bool(0.3) && w.banks[lev.ca].venue.is_none();
+    if reduce_only {
+        let g = w.accts[lev.acct].group;
+        let admin = clone_kp(&w.groups[g].admin);
+        let mut o = BankConfigOpt::default();
+        o.operational_state = Some(BankOperationalState::ReduceOnly);
+        let i = ix::configure_bank(w.groups[g].key, admin.pubkey(), w.banks[lev.ca].key, o);
+        let ok = w.exec(m, &[i], &[&admin]).await.ok();
+        m.r.count(if ok { "scen.receivership_over_reduce_only_collateral" } else { "scen.reduce_only_configure_rejected" });
+    }
+    receivership_inner(w, m, r, lev, receiver_user).await;
+    if reduce_only {
+        let g = w.accts[lev.acct].group;
+        let admin = clone_kp(&w.groups[g].admin);
+        let mut o = BankConfigOpt::default();
+        o.operational_state = Some(BankOperationalState::Operational);
+        let i = ix::configure_bank(w.groups[g].key, admin.pubkey(), w.banks[lev.ca].key, o);
+        let _ = w.exec(m, &[i], &[&admin]).await;
+    }
+}
+
+async fn receivership_inner(w: &mut World, m: &mut Mon, r: &mut R, lev: &Lev, receiver_user: usize) {
     let shock = pick(r, &[0.9f64, 0.8, 0.6, 0.3]);
     scale_price_any(w, lev.ca, shock).await;
     let rk = w.user_kp(receiver_user);
@@ -626,11 +650,18 @@ pub async fn deleverage(w: &mut World, m: &mut Mon, r: &mut R, lev: &Lev, g: usi
         let mut rem = w.mint_prefix(lev.ca);
         rem.extend(risk_metas.clone());
         ixs.push(ix::withdraw(gk, acct, signer.pubkey(), w.banks[lev.ca].key, ta_c, w.token_program_of_bank(lev.ca), wd, None, rem));
-        let rp = pick(r, &[lev.borrowed / 20 + 1, lev.borrowed / 5 + 1, lev.borrowed / 2 + 1]);
-        ixs.push(ix::repay(gk, acct, signer.pubkey(), w.banks[lev.db].key, ta_d, w.token_program_of_bank(lev.db), rp, None, w.mint_prefix(lev.db)));
-        ixs.push(ix::end_deleverage(gk, acct, signer.pubkey(), risk_metas));
+        // sometimes the whole debt (the bank is not flagged for token-less repayment: the risk admin
+        // pays like anybody else)
+        let all = r.gen_bool(0.25);
+        let rp = if all { 0 } else { pick(r, &[lev.borrowed / 20 + 1, lev.borrowed / 5 + 1, lev.borrowed / 2 + 1]) };
+        ixs.push(ix::repay(gk, acct, signer.pubkey(), w.banks[lev.db].key, ta_d, w.token_program_of_bank(lev.db), rp, if all { Some(true) } else { None }, w.mint_prefix(lev.db)));
+        let end_metas = if all { w.risk_metas(lev.acct, None, Some(lev.db)) } else { risk_metas };
+        ixs.push(ix::end_deleverage(gk, acct, signer.pubkey(), end_metas));
         let o = w.exec(m, &ixs, &[&signer]).await;
         m.r.count(if o.ok() { "scen.deleverage_committed" } else { "scen.deleverage_rejected" });
+        if all {
+            m.r.count(if o.ok() { "scen.deleverage_repay_all_committed" } else { "scen.deleverage_repay_all_rejected" });
+        }
     }
 }
 
